@@ -387,3 +387,25 @@ Example C02_symlink_target_ex : exists i o,
   mk (STR "data/two.txt") (RRoot Builddir) None None = Some o /\
   symlink_target Posix i o = Some (STR "../data2/two.txt").
 Proof. do 2 eexists. vm_compute. repeat split. Qed.
+
+(* ---- the install directories as file-level variables (builtins/install.py _add_install_paths): written in the order
+   of InstallRoot, with every relative directory below an EARLIER root, the value Ninja has for each root (file-level
+   bindings are evaluated where they are defined) is the directory the configuration denotes *)
+From BFG Require Import Ninja.InstallDirs Ninja.InstallDirsProofs.
+
+Theorem C02_install_order_denotes : forall l,
+  backward (cfg_of l) -> ninja_dirs (seq 0 (length l)) l = denoted_dirs l.
+Proof. exact install_order_denotes. Qed.
+Print Assumptions C02_install_order_denotes.
+
+(* written in another order (libdir = exec_prefix/lib64 before prefix and exec_prefix) libdir loses its prefix *)
+Theorem C02_install_other_order_refuted :
+  backward (cfg_of ex_cfg) /\ ninja_dirs [3; 0; 1; 2] ex_cfg <> denoted_dirs ex_cfg.
+Proof. exact install_other_order_refuted. Qed.
+Print Assumptions C02_install_other_order_refuted.
+
+(* non-vacuity: /usr, exec_prefix = prefix, bindir = exec_prefix/bin, libdir = exec_prefix/lib64 *)
+Example C02_install_order_ex :
+  ninja_dirs [0; 1; 2; 3] ex_cfg = [STR "/usr"; STR "/usr"; STR "/usr/bin"; STR "/usr/lib64"] /\
+  ninja_dirs [3; 0; 1; 2] ex_cfg = [STR "/usr"; STR "/usr"; STR "/usr/bin"; STR "/lib64"].
+Proof. split; vm_compute; reflexivity. Qed.
